@@ -27,10 +27,16 @@ def units(tier, seed):
     for spec in fam:
         n = spec["name"]
         if G.has_form(spec, G.is_form("union")):
-            continue  # how many expansions a Union field hides is not defined consistently by the library itself
+            # how many expansions a Union field hides is not defined consistently by the library itself (the labels add no
+            # hidden abstract layer below a Union field, the distance analysis does): not decided, see DESIGN 9.2
+            continue
         if n.split(":")[0] in ("S1", "S2", "S3", "S5", "S9", "S11", "S15", "S18", "S27", "S29", "S30") or (n.startswith("F1:") and "," not in n):
             for dec in ("maxdepth", "pigrow"):
                 us.append({"kind": "tree-create", "spec": spec, "decider": dec, "depth_off": 2, "xd": True, "max_execs": 400 if tier == "quick" else 5000})
+            # the same grammar declared a second time under the module and class names of a first, used declaration
+            for xd in (True, False):
+                us.append({"kind": "tree-create", "spec": spec, "decider": "maxdepth", "depth_off": 2, "xd": xd, "redeclare": True,
+                           "max_execs": 200 if tier == "quick" else 2000})
     # the dependent-types context grammar (lists of names threaded through the tree by hand-written refinements)
     for dec in ("maxdepth", "pigrow"):
         for off in (1, 2, 3):
